@@ -43,6 +43,12 @@ proofs/Policy.vos proofs/Policy.vok proofs/Policy.required_vos: proofs/Policy.v 
 proofs/MemoryLemmas.vo proofs/MemoryLemmas.glob proofs/MemoryLemmas.v.beautified proofs/MemoryLemmas.required_vo: proofs/MemoryLemmas.v gen/Consts.vo model/Base.vo model/Types.vo model/Ext.vo model/Memory.vo proofs/Tactics.vo proofs/BaseLemmas.vo
 proofs/MemoryLemmas.vio: proofs/MemoryLemmas.v gen/Consts.vio model/Base.vio model/Types.vio model/Ext.vio model/Memory.vio proofs/Tactics.vio proofs/BaseLemmas.vio
 proofs/MemoryLemmas.vos proofs/MemoryLemmas.vok proofs/MemoryLemmas.required_vos: proofs/MemoryLemmas.v gen/Consts.vos model/Base.vos model/Types.vos model/Ext.vos model/Memory.vos proofs/Tactics.vos proofs/BaseLemmas.vos
+proofs/DecapBase.vo proofs/DecapBase.glob proofs/DecapBase.v.beautified proofs/DecapBase.required_vo: proofs/DecapBase.v gen/Consts.vo gen/HLenTable.vo model/Base.vo model/Types.vo model/Header.vo model/Ext.vo model/Memory.vo model/Decap.vo proofs/Tactics.vo proofs/BaseLemmas.vo proofs/HeaderLemmas.vo proofs/EncapSpec.vo
+proofs/DecapBase.vio: proofs/DecapBase.v gen/Consts.vio gen/HLenTable.vio model/Base.vio model/Types.vio model/Header.vio model/Ext.vio model/Memory.vio model/Decap.vio proofs/Tactics.vio proofs/BaseLemmas.vio proofs/HeaderLemmas.vio proofs/EncapSpec.vio
+proofs/DecapBase.vos proofs/DecapBase.vok proofs/DecapBase.required_vos: proofs/DecapBase.v gen/Consts.vos gen/HLenTable.vos model/Base.vos model/Types.vos model/Header.vos model/Ext.vos model/Memory.vos model/Decap.vos proofs/Tactics.vos proofs/BaseLemmas.vos proofs/HeaderLemmas.vos proofs/EncapSpec.vos
+proofs/DecapSpec.vo proofs/DecapSpec.glob proofs/DecapSpec.v.beautified proofs/DecapSpec.required_vo: proofs/DecapSpec.v gen/Consts.vo gen/HLenTable.vo model/Base.vo model/Types.vo model/Header.vo model/Ext.vo model/Memory.vo model/Decap.vo proofs/Tactics.vo proofs/BaseLemmas.vo proofs/HeaderLemmas.vo proofs/EncapSpec.vo proofs/MemoryLemmas.vo proofs/DecapBase.vo
+proofs/DecapSpec.vio: proofs/DecapSpec.v gen/Consts.vio gen/HLenTable.vio model/Base.vio model/Types.vio model/Header.vio model/Ext.vio model/Memory.vio model/Decap.vio proofs/Tactics.vio proofs/BaseLemmas.vio proofs/HeaderLemmas.vio proofs/EncapSpec.vio proofs/MemoryLemmas.vio proofs/DecapBase.vio
+proofs/DecapSpec.vos proofs/DecapSpec.vok proofs/DecapSpec.required_vos: proofs/DecapSpec.v gen/Consts.vos gen/HLenTable.vos model/Base.vos model/Types.vos model/Header.vos model/Ext.vos model/Memory.vos model/Decap.vos proofs/Tactics.vos proofs/BaseLemmas.vos proofs/HeaderLemmas.vos proofs/EncapSpec.vos proofs/MemoryLemmas.vos proofs/DecapBase.vos
 props/C14.vo props/C14.glob props/C14.v.beautified props/C14.required_vo: props/C14.v model/Base.vo model/Types.vo model/Header.vo proofs/HeaderLemmas.vo
 props/C14.vio: props/C14.v model/Base.vio model/Types.vio model/Header.vio proofs/HeaderLemmas.vio
 props/C14.vos props/C14.vok props/C14.required_vos: props/C14.v model/Base.vos model/Types.vos model/Header.vos proofs/HeaderLemmas.vos
@@ -85,6 +91,6 @@ model/Decap.vos model/Decap.vok model/Decap.required_vos: model/Decap.v gen/Cons
 model/Utils.vo model/Utils.glob model/Utils.v.beautified model/Utils.required_vo: model/Utils.v gen/Consts.vo model/Base.vo model/Types.vo model/Header.vo
 model/Utils.vio: model/Utils.v gen/Consts.vio model/Base.vio model/Types.vio model/Header.vio
 model/Utils.vos model/Utils.vok model/Utils.required_vos: model/Utils.v gen/Consts.vos model/Base.vos model/Types.vos model/Header.vos
-extract/Extract.vo extract/Extract.glob extract/Extract.v.beautified extract/Extract.required_vo: extract/Extract.v model/Base.vo model/Types.vo model/Header.vo model/Crc.vo model/Ext.vo model/Encap.vo model/Memory.vo model/Decap.vo model/Utils.vo
-extract/Extract.vio: extract/Extract.v model/Base.vio model/Types.vio model/Header.vio model/Crc.vio model/Ext.vio model/Encap.vio model/Memory.vio model/Decap.vio model/Utils.vio
-extract/Extract.vos extract/Extract.vok extract/Extract.required_vos: extract/Extract.v model/Base.vos model/Types.vos model/Header.vos model/Crc.vos model/Ext.vos model/Encap.vos model/Memory.vos model/Decap.vos model/Utils.vos
+extract/Extract.vo extract/Extract.glob extract/Extract.v.beautified extract/Extract.required_vo: extract/Extract.v model/Base.vo model/Types.vo model/Header.vo model/Crc.vo model/Ext.vo model/Encap.vo model/Memory.vo model/Decap.vo model/Utils.vo proofs/EncapSpec.vo proofs/DecapSpec.vo
+extract/Extract.vio: extract/Extract.v model/Base.vio model/Types.vio model/Header.vio model/Crc.vio model/Ext.vio model/Encap.vio model/Memory.vio model/Decap.vio model/Utils.vio proofs/EncapSpec.vio proofs/DecapSpec.vio
+extract/Extract.vos extract/Extract.vok extract/Extract.required_vos: extract/Extract.v model/Base.vos model/Types.vos model/Header.vos model/Crc.vos model/Ext.vos model/Encap.vos model/Memory.vos model/Decap.vos model/Utils.vos proofs/EncapSpec.vos proofs/DecapSpec.vos
